@@ -60,6 +60,8 @@ class MySQLValue(Value):
 class MySQLBuilder(SQLBuilder):
     dialect = 'MySQL'
     value_class = MySQLValue
+    def LENGTH(builder, expr):
+        return 'char_length(', builder(expr), ')'  # length() counts bytes
     def CONCAT(builder, *args):
         return 'concat(',  join(', ', map(builder, args)), ')'
     def TRIM(builder, expr, chars=None):
